@@ -3,15 +3,16 @@ import Rtsp.Model.PeerSession
 import Rtsp.Drv.Util
 /-
 Line protocol of the `peer` domain, unit level (UDP demultiplexing).
-  peer fill <ip> <port>                  → <ip16> <port>
-  peer eq <ip> <ip>                      → 0|1
-  peer sinit                             → ok
-  peer sadd <ip> <port> <cb>             → n <clients>
-  peer srem <ip> <port>                  → n <clients>
-  peer spkt <ip> <port> <len> <now>      → cb <id> bytes <b> pkts <p> last <t>  |  drop
-  peer sstat <cb>                        → bytes <b> pkts <p> last <t> calls <total>
-  peer cinit <anyport> <ip> <port>       → ok
-  peer cpkt <ip> <port> <len> <now>      → acc|drop rp <readPort> last <t> n <delivered>
+  peer fill <ip> <zone> <port>                  → <ip16> <zone> <port>
+  peer eq <ip> <ip>                             → 0|1
+  peer sinit                                    → ok
+  peer sadd <ip> <zone> <port> <cb>             → n <clients>
+  peer srem <ip> <zone> <port>                  → n <clients>
+  peer spkt <ip> <zone> <port> <len> <now>      → cb <id> bytes <b> pkts <p> last <t>  |  drop
+  peer sstat <cb>                               → bytes <b> pkts <p> last <t> calls <total>
+  peer cinit <anyport> <multicast> <ip> <zone> <port>  → ok
+  peer cpkt <ip> <zone> <port> <len> <now>      → acc|drop rp <readPort> last <t> n <delivered>
+zones are words without blanks, `-` = the empty zone.
 Session level (Model/PeerSession.lean):
   peer xinit <udp 0|1>                                   → ok
   peer xconn <cid> <ip> <zone|->                         → <dump>
@@ -27,33 +28,36 @@ open Rtsp.Peer
 
 def showStat (c : CbStat) : String := s!"bytes {c.bytes} pkts {c.pkts} last {c.last}"
 
+def zoneOf (z : String) : String := if z == "-" then "" else z
+def showZone (z : String) : String := if z == "" then "-" else z
+
 def unitOps (srv : IO.Ref Srv) (cl : IO.Ref CL) (args : List String) : IO (Option String) := do
   match args with
-  | ["fill", ip, port] =>
+  | ["fill", ip, z, port] =>
     match unhex ip, port.toInt? with
-    | some i, some p => let a := fill i p; return some s!"{hex a.ip} {a.port}"
+    | some i, some p => let a := fill i (zoneOf z) p; return some s!"{hex a.ip} {showZone a.zone} {a.port}"
     | _, _ => return some "bad-op"
   | ["eq", a, b] =>
     match unhex a, unhex b with
     | some x, some y => return some (b2s (ipEqual x y))
     | _, _ => return some "bad-op"
   | ["sinit"] => srv.set {}; return some "ok"
-  | ["sadd", ip, port, cb] =>
+  | ["sadd", ip, z, port, cb] =>
     match unhex ip, port.toInt?, cb.toNat? with
     | some i, some p, some c =>
-      let s := (← srv.get).add i p c
+      let s := (← srv.get).add i (zoneOf z) p c
       srv.set s; return some s!"n {s.clients.length}"
     | _, _, _ => return some "bad-op"
-  | ["srem", ip, port] =>
+  | ["srem", ip, z, port] =>
     match unhex ip, port.toInt? with
     | some i, some p =>
-      let s := (← srv.get).remove i p
+      let s := (← srv.get).remove i (zoneOf z) p
       srv.set s; return some s!"n {s.clients.length}"
     | _, _ => return some "bad-op"
-  | ["spkt", ip, port, len, now] =>
+  | ["spkt", ip, z, port, len, now] =>
     match unhex ip, port.toInt?, len.toNat?, now.toInt? with
     | some i, some p, some l, some t =>
-      let (s, r) := (← srv.get).recv i p l t
+      let (s, r) := (← srv.get).recv i (zoneOf z) p l t
       srv.set s
       match r with
       | some cb => return some s!"cb {cb} {showStat (statOf s.stats cb)}"
@@ -63,14 +67,16 @@ def unitOps (srv : IO.Ref Srv) (cl : IO.Ref CL) (args : List String) : IO (Optio
     match cb.toNat? with
     | some c => let s ← srv.get; return some s!"{showStat (statOf s.stats c)} calls {s.log.length}"
     | none => return some "bad-op"
-  | ["cinit", any, ip, port] =>
+  | ["cinit", any, mc, ip, z, port] =>
     match unhex ip, port.toInt? with
-    | some i, some p => cl.set { anyPort := any == "1", readIP := i, readPort := p }; return some "ok"
+    | some i, some p =>
+      cl.set { anyPort := any == "1", multicast := mc == "1", readIP := i, readZone := zoneOf z, readPort := p }
+      return some "ok"
     | _, _ => return some "bad-op"
-  | ["cpkt", ip, port, len, now] =>
+  | ["cpkt", ip, z, port, len, now] =>
     match unhex ip, port.toInt?, len.toNat?, now.toInt? with
     | some i, some p, some l, some t =>
-      let (s, acc) := (← cl.get).recv i p l t
+      let (s, acc) := (← cl.get).recv i (zoneOf z) p l t
       cl.set s
       return some s!"{if acc then "acc" else "drop"} rp {s.readPort} last {s.last} n {s.delivered.length}"
     | _, _, _, _ => return some "bad-op"
@@ -122,10 +128,10 @@ def sessOps (sv : IO.Ref Server) (args : List String) : IO (Option String) := do
     match cid.toNat? with
     | some c => let s := (← sv.get).closeConn c; sv.set s; return some (dump s)
     | none => return some "bad-op"
-  | ["xdgram", ch, ip, port, _zone] =>   -- the listeners ignore the zone of the source
+  | ["xdgram", ch, ip, port, zone] =>
     match unhex ip, port.toInt? with
     | some i, some p =>
-      match (← sv.get).datagram (ch == "rtcp") i p with
+      match (← sv.get).datagram (ch == "rtcp") i (zoneOf zone) p with
       | some (sid, m) => return some s!"to {sid} {m}"
       | none => return some "drop"
     | _, _ => return some "bad-op"
